@@ -3,7 +3,9 @@
    Per type T:  C08_T_ser_agree, C08_T_dec_enc, C08_T_enc_dec (+ C08_T_spec: the
    serialiser writes the RFC layout of Roundtrip/Spec.v). *)
 From EP Require Import Base.Bytes Roundtrip.Common Roundtrip.Spec.
-From EP Require Roundtrip.Tcp Roundtrip.TcpProofs.
+From EP Require Roundtrip.Tcp Roundtrip.TcpProofs Roundtrip.Ipv4 Roundtrip.Ipv4Proofs.
+From EP Require Checksum.Model.
+From EP Require Roundtrip.Frag Roundtrip.FragProofs.
 Local Open Scope N_scope.
 
 (* ------------------------------------------------------------------ TcpHeader *)
@@ -68,3 +70,107 @@ Example C08_Tcp_ex_dec : exists h,
   /\ tcp_eqb h ex_stale = true.
 Proof. eexists. split; vm_compute; reflexivity. Qed.
 End TCP.
+
+(* ------------------------------------------------------------------ Ipv4Header *)
+Module IPV4.
+Import Checksum.Model Roundtrip.Ipv4 Roundtrip.Ipv4Proofs.
+
+(* to_bytes and write_raw agree (Ipv4Header has no write_to_slice) *)
+Theorem C08_Ipv4_ser_agree : forall h out, wf_ip4 h = true ->
+  exists e, ip4_to_bytes h = Some e /\ ip4_write_raw out h = Some (out ++ e) /\ len e = ip4_header_len h.
+Proof. exact ip4_ser_agree. Qed.
+Print Assumptions C08_Ipv4_ser_agree.
+
+(* write() deliberately differs: it stores calc_header_checksum() instead of the
+   header_checksum field; it equals to_bytes exactly when the field is consistent *)
+Theorem C08_Ipv4_write_recomputes : forall e h out, wf_ip4 h = true ->
+  exists ck, ip4_calc_checksum e h = Some ck /\
+    (ck < 65536 -> exists b, ip4_to_bytes (ip4_set_checksum h ck) = Some b /\ ip4_write e out h = Some (out ++ b)) /\
+    (i4_header_checksum h = ck -> exists b, ip4_to_bytes h = Some b /\ ip4_write e out h = Some (out ++ b)).
+Proof. exact ip4_write_recomputes. Qed.
+Print Assumptions C08_Ipv4_write_recomputes.
+
+Theorem C08_Ipv4_dec_enc : forall h rest, wf_ip4 h = true ->
+  exists e, ip4_to_bytes h = Some e /\ ip4_from_slice (e ++ rest) = Ok (ip4_norm h, rest)
+            /\ ip4_read (e ++ rest) = Ok (ip4_norm h, rest) /\ ip4_eqb (ip4_norm h) h = true.
+Proof. exact ip4_dec_enc. Qed.
+Print Assumptions C08_Ipv4_dec_enc.
+
+(* reserved: bit 7 of byte 6 *)
+Theorem C08_Ipv4_enc_dec : forall bs h rest, bytes_ok bs -> ip4_from_slice bs = Ok (h, rest) ->
+  wf_ip4 h = true /\ ip4_norm h = h /\
+  exists e, ip4_to_bytes h = Some e /\ bs = take (ip4_header_len h) bs ++ rest
+            /\ agree (ip4_keep_mask (ip4_header_len h)) e (take (ip4_header_len h) bs)
+            /\ ip4_from_slice e = Ok (h, []).
+Proof. exact ip4_enc_dec. Qed.
+Print Assumptions C08_Ipv4_enc_dec.
+
+Theorem C08_Ipv4_spec : forall h, wf_ip4 h = true ->
+  ip4_to_bytes h = Some (ipv4_layout (i4_dscp h) (i4_ecn h) (i4_total_len h) (i4_identification h)
+    (i4_dont_fragment h) (i4_more_fragments h) (i4_fragment_offset h) (i4_time_to_live h) (i4_protocol h)
+    (i4_header_checksum h) (i4_source h) (i4_destination h)
+    (take (i4o_len (i4_options h)) (i4o_buf (i4_options h)))).
+Proof. exact ip4_spec. Qed.
+Print Assumptions C08_Ipv4_spec.
+
+Definition ex_max : Ipv4Header :=
+  {| i4_dscp := 63; i4_ecn := 3; i4_total_len := 65535; i4_identification := 65535;
+     i4_dont_fragment := true; i4_more_fragments := true; i4_fragment_offset := 8191;
+     i4_time_to_live := 255; i4_protocol := 255; i4_header_checksum := 65535;
+     i4_source := [255; 255; 255; 255]; i4_destination := [255; 255; 255; 255];
+     i4_options := {| i4o_len := 40; i4o_buf := repeat 255 40 |} |}.
+Definition ex_stale : Ipv4Header :=
+  {| i4_dscp := 1; i4_ecn := 2; i4_total_len := 24; i4_identification := 3;
+     i4_dont_fragment := false; i4_more_fragments := true; i4_fragment_offset := 4660;
+     i4_time_to_live := 64; i4_protocol := 6; i4_header_checksum := 0;
+     i4_source := [10; 0; 0; 1]; i4_destination := [10; 0; 0; 2];
+     i4_options := {| i4o_len := 4; i4o_buf := [1; 1; 1; 0] ++ repeat 170 36 |} |}.
+Example C08_Ipv4_ex_wf : wf_ip4 ex_max = true /\ wf_ip4 ex_stale = true.
+Proof. split; vm_compute; reflexivity. Qed.
+Example C08_Ipv4_ex_bytes : ip4_to_bytes ex_stale =
+  Some [70; 6; 0; 24; 0; 3; 50; 52; 64; 6; 0; 0; 10; 0; 0; 1; 10; 0; 0; 2; 1; 1; 1; 0].
+Proof. vm_compute. reflexivity. Qed.
+Example C08_Ipv4_ex_dec : exists h,
+  ip4_from_slice [70; 6; 0; 24; 0; 3; 178; 52; 64; 6; 0; 0; 10; 0; 0; 1; 10; 0; 0; 2; 1; 1; 1; 0; 9] = Ok (h, [9])
+  /\ ip4_eqb h ex_stale = true.
+Proof. eexists. split; vm_compute; reflexivity. Qed.
+End IPV4.
+
+(* ------------------------------------------------------------------ Ipv6FragmentHeader *)
+Module FRAG.
+Import Roundtrip.Frag Roundtrip.FragProofs.
+
+(* write = write_all(to_bytes); fixed length 8 (no write_to_slice) *)
+Theorem C08_Frag_ser_agree : forall h out,
+  frag_write out h = out ++ frag_to_bytes h /\ len (frag_to_bytes h) = frag_header_len h.
+Proof. exact frag_ser_agree. Qed.
+Print Assumptions C08_Frag_ser_agree.
+
+Theorem C08_Frag_dec_enc : forall h rest, wf_frag h = true ->
+  frag_from_slice (frag_to_bytes h ++ rest) = Ok (h, rest) /\ frag_read (frag_to_bytes h ++ rest) = Ok (h, rest).
+Proof. exact frag_dec_enc. Qed.
+Print Assumptions C08_Frag_dec_enc.
+
+(* reserved: byte 1 and bits 1-2 of byte 3 *)
+Theorem C08_Frag_enc_dec : forall bs h rest, bytes_ok bs -> frag_from_slice bs = Ok (h, rest) ->
+  wf_frag h = true /\ bs = take 8 bs ++ rest
+  /\ agree frag_keep_mask (frag_to_bytes h) (take 8 bs)
+  /\ frag_from_slice (frag_to_bytes h) = Ok (h, []).
+Proof. exact frag_enc_dec. Qed.
+Print Assumptions C08_Frag_enc_dec.
+
+Theorem C08_Frag_spec : forall h, wf_frag h = true ->
+  frag_to_bytes h = frag_layout (fr_next_header h) (fr_fragment_offset h) (fr_more_fragments h) (fr_identification h).
+Proof. exact frag_spec. Qed.
+Print Assumptions C08_Frag_spec.
+
+Definition ex_max : Ipv6FragmentHeader :=
+  {| fr_next_header := 255; fr_fragment_offset := 8191; fr_more_fragments := true;
+     fr_identification := 4294967295 |}.
+Example C08_Frag_ex_wf : wf_frag ex_max = true. Proof. vm_compute. reflexivity. Qed.
+Example C08_Frag_ex_bytes : frag_to_bytes ex_max = [255; 0; 255; 249; 255; 255; 255; 255].
+Proof. vm_compute. reflexivity. Qed.
+Example C08_Frag_ex_dec : frag_from_slice [6; 170; 0; 15; 0; 0; 0; 1; 7] =
+  Ok ({| fr_next_header := 6; fr_fragment_offset := 1; fr_more_fragments := true; fr_identification := 1 |}, [7]).
+Proof. vm_compute. reflexivity. Qed.
+End FRAG.
